@@ -95,6 +95,13 @@ func RegisterTypeMigration(previousPkgPath, previousTypeName string, newType err
 	prevKey := TypeKey(makeTypeKey(previousPkgPath, previousTypeName))
 	newKey := TypeKey(getFullTypeName(newType))
 
+	// If the previous name is itself the result of an earlier rename
+	// that was already registered, the type must keep being encoded
+	// under its original name.
+	if origKey, ok := backwardRegistry[prevKey]; ok {
+		prevKey = origKey
+	}
+
 	// Register the backward migration: make the encode function
 	// aware of the old name.
 	if f, ok := backwardRegistry[newKey]; ok {
